@@ -324,8 +324,8 @@ class RunningOrder(MosFile):
         Print an outline of the key file contents
         """
         print("RO:", self.ro_slug)
-        for story in self.stories:
-            print("STORY:", story.id)
+        for story_tag in self.base_tag.findall('story'):
+            print("STORY:", Story(story_tag).id)
 
 
 class StorySend(MosFile):
